@@ -121,6 +121,20 @@ PROPS = {
                  'host results (open, statx, file handle) are uninterpreted; Arc<FileHandle> key = the FileHandle it holds; models of CStr::from_bytes_with_nul, Option::or_else / filter, btree_map::Entry',
                  'rules R23 (ghost token), R31 (Result::inspect), R32 (Option::unwrap_or_else), R17\' (callback that continues after its continuation)'],
     ),
+    'C09': dict(
+        vx_units=['inodes', 'ptlookup'], kx=[],
+        # C09 is decided through the obligations of the lookup / forget side of C08 (same functions, same clauses): a failure of one of these counts for C09 as well
+        alias=[r'^C08\.lookup\.', r'^C08\.forget\.', r'^C08\.map\.', r'\.(cas|add|insert|seq)$', r'^(inodes|ptlookup)\.(do_lookup|forget_one)\.'],
+        design_ref='DESIGN.md A.4',
+        not_covered=[
+            'the linearisation argument that composes the per-step obligations into "the outcome equals some sequential order" is NOT mechanised (it is the standard one: every change of a count is one atomic compare-exchange / fetch_add whose guard is re-validated by that very step or by the write lock)',
+            'memory-ordering (Acquire / Release / Relaxed) adequacy; liveness of the retry loops (exec_allows_no_decreases_clause); lock poisoning',
+            'interleavings with operations other than lookup and forget (create, unlink, rename ... through do_lookup are the same code path; destroy / import are not covered)',
+            'known finding D16 (use_host_ino with inode_file_handles: a re-used host inode number takes over a live inode number) concerns "an inode number returned by a lookup remains usable": listed under C08',
+        ],
+        trusted=['T3 as C08: AtomicU64 loads are unconstrained (any value another thread may have written), compare_exchange / fetch_add are capability-guarded single steps',
+                 'T8 rely: at every lock acquisition the store may have become ANY store satisfying the invariant (other threads keep the invariant); guarantee: this thread keeps it (lemmas of unit ptlookup)'],
+    ),
     'C04': dict(
         vx_units=['iobuffers', 'fusedevw', 'virtiofsw'], kx=['file_buf'],
         design_ref='DESIGN.md A.4',
